@@ -1044,9 +1044,16 @@ LEVEL_TEXT = ("Machine-checked proof (Coq, axiom-free) over an executable model 
               "SMILES-like labels such as CC(=O)O, C#C, Fe(OH)3) and blank-free rules; C16_label_domain_refuted shows a restriction is necessary "
               "(known finding); (3) C16_species_graph_roundtrip: for every network whose reactions all have reactants and products, "
               "collapse + reconstruction returns the same ids with the same reactant and product coefficient maps, including when "
-              "several reactions share a species pair. The model is tied to the Python code by comparing, on every run, the "
+              "several reactions share a species pair (C16_species_graph_roundtrip_full: also the species and the molecule labels of the "
+              "rebuilt network). Round 3: parse_rxns with explicit per-line rules is modelled (C16_parse_plain_is_items, "
+              "C16_strings_roundtrip_explicit_rules, C16_strings_roundtrip_prefer_suffix), the string round trip keeps the reaction "
+              "sequence (C16_strings_roundtrip_order), the premise survives in-place edits (C16_edited_wf), and the facades' defaults are "
+              "Gallina definitions (C16_as_bipartite_defaults). The model is tied to the Python code by comparing, on every run, the "
               "intermediate view (all nodes, arcs and attributes, or the printed lines) and the reconstructed network for thousands of "
-              "generated networks and flag combinations (exhaustive small scope + random + adversarial + fuzzed parser input).")
+              "generated networks and flag combinations (exhaustive small scope + random + adversarial + fuzzed parser input), including "
+              "HISTORIES: repeated round trips on one shared network object while the caller edits, in place, every result it was handed, "
+              "and the same object edited in place between batches of views; every step is compared with the (pure) model and judged by "
+              "the oracle against a fresh build.")
 LEVEL_NOTE = ("Trusted: Coq kernel + vm_compute, std++; the hand-written model (C16_Model.v on C15_Model.v) and the harness encoders; "
               "networkx DiGraph attribute-merge semantics; CPython str/re/int on ASCII text. Not claimed: rules after a species-graph "
               "round trip (merged rule sets, arbitrary pick), insertion order and labels of reaction-less kept species after the graph "
